@@ -36,7 +36,12 @@ fn decode_finish(r: std::thread::Result<Result<wire::Msg, mdns_sd::Error>>, budg
     let used = budget - left.unwrap_or(0);
     match r {
         Ok(Ok(m)) => (Dec::Ok(m), used),
-        Ok(Err(_)) => (Dec::Err, used),
+        Ok(Err(e)) => {
+            if std::env::var("VERIF_SHOW_ERR").is_ok() {
+                eprintln!("decode error: {e:?}");
+            }
+            (Dec::Err, used)
+        }
         Err(_) => {
             let p = take_panic().unwrap_or_default();
             if p.starts_with("FUEL") {
@@ -619,6 +624,35 @@ fn e5_cases() -> Vec<(String, Vec<u8>)> {
             v.push((format!("growing-names n={}", p.len()), p));
         }
     }
+    // (f) one name that walks the same label area several times, each pass one phase (2 bytes)
+    // further and ending in a backward pointer to the next phase: far longer than the datagram,
+    // no cycle.  The phases start at offsets 0x27E.., so that the pointers between them
+    // (0xC2 0x80..) are valid UTF-8 inside the labels of the later passes that run over them.
+    for (passes, m) in [(8usize, 8usize), (20, 4), (30, 2)] {
+        let first = 0x27Eusize;
+        let mut p = header(0, 0x8400, 0, 1, 0, 1);
+        p.extend([1, b'a', 0, 0, 16, 0, 1, 0, 0, 0, 120]);
+        let base = p.len() + 2;
+        let end = first + 64 * m + 2 * passes;
+        let area = end - base;
+        p.extend((area as u16).to_be_bytes());
+        let mut body = vec![63u8; area];
+        for j in 0..passes {
+            let at = first + 2 * j + 64 * m - base;
+            if j + 1 < passes {
+                let to = (first + 2 * (j + 1)) as u16;
+                body[at] = 0xC0 | (to >> 8) as u8;
+                body[at + 1] = (to & 0xFF) as u8;
+            } else {
+                body[at] = 0;
+                body[at + 1] = 0;
+            }
+        }
+        p.extend(body);
+        p.extend((0xC000u16 | first as u16).to_be_bytes());
+        p.extend([0, 1, 0, 1, 0, 0, 0, 5, 0, 4, 1, 2, 3, 4]);
+        v.push((format!("one-name-walking-a-label-area-{passes}-times n={}", p.len()), p));
+    }
     v
 }
 
@@ -878,7 +912,7 @@ pub fn check(tier: &str) -> i32 {
     let fam = e5_cases();
     let e5 = FnPart {
         name: "E5-size-families".into(),
-        rule: "pointer chains, interleaved label chains, 0xFFFF counts, long shared name, growing names, at sizes 600..9000".into(),
+        rule: "pointer chains, interleaved label chains, 0xFFFF counts, long shared name, growing names, one name that walks a label area eight times through backward pointers, at sizes 600..9000".into(),
         n: fam.len() as u64,
         describe: Box::new(|i| format!("{} {}", fam[i as usize].0, truncate(&hex(&fam[i as usize].1), 120))),
         run: Box::new(|i, _| {
